@@ -570,9 +570,47 @@ func (fc *FnCtx) typeID(t types.Type) *smt.Term {
 	return fc.typeIDByName(fc.P.TypeStr(t, nil))
 }
 
+// implementsFn declares implements!I and states, for every concrete type id
+// known so far, whether it implements I (decided by go/types).
+func (fc *FnCtx) implementsFn(it types.Type) string {
+	iname := fc.P.TypeStr(it, nil)
+	fn := "implements!" + smt.Ident(iname)
+	if !fc.S.Declared(fn) {
+		fc.S.DeclareFun(fn, []smt.Sort{smt.Int}, smt.Bool)
+		fc.ifaces[fn] = it
+		for idn, ct := range fc.typeObjs {
+			fc.implFact(fn, it, idn, ct)
+		}
+	}
+	return fn
+}
+
+func (fc *FnCtx) implFact(fn string, it types.Type, idn string, ct types.Type) {
+	iface, ok := it.Underlying().(*types.Interface)
+	if !ok || ct == nil {
+		return
+	}
+	if _, isIface := ct.Underlying().(*types.Interface); isIface {
+		return
+	}
+	app := smt.App(fn, smt.Bool, smt.Const(idn, smt.Int))
+	if types.Implements(ct, iface) {
+		fc.S.Assert(app, "go/types: implements")
+	} else {
+		fc.S.Assert(smt.Not(app), "go/types: does not implement")
+	}
+}
+
 func (fc *FnCtx) typeIDByName(tname string) *smt.Term {
 	name := "ty!" + smt.Ident(tname)
 	if !fc.S.Declared(name) {
+		defer func() {
+			ct := fc.P.goTypeByName(tname)
+			fc.typeObjs[name] = ct
+			for fn, it := range fc.ifaces {
+				fc.implFact(fn, it, name, ct)
+			}
+		}()
 		fc.S.DeclareFun(name, nil, smt.Int)
 		// distinctness: each type id is pinned to a hash-free counter via an injective naming function
 		fc.typeIDs = append(fc.typeIDs, name)
@@ -626,8 +664,7 @@ func (fc *FnCtx) typeAssert(x *ssa.TypeAssert, st *State, g *smt.Term, where str
 	var ok *smt.Term
 	var res Val
 	if _, isIface := at.Underlying().(*types.Interface); isIface {
-		fn := "implements!" + smt.Ident(fc.P.TypeStr(at, nil))
-		fc.S.DeclareFun(fn, []smt.Sort{smt.Int}, smt.Bool)
+		fn := fc.implementsFn(at)
 		ok = smt.And(smt.Neq(ref, smt.IntLit(0)), smt.App(fn, smt.Bool, fc.dtype(ref)))
 		res = Val{T: ref, GoT: at}
 	} else {
